@@ -44,7 +44,7 @@ def twoOnUnfetchable : Project :=
 goroutine 1 then finds the module in the registry and waits for it -/
 def twoOnUnfetchableSchedule : List Tid := [0, 0, 0, 0, 0, 0, 0, 0, 0, 0, 0, 1, 1, 1, 1, 1, 1, 1, 1, 1]
 
-/-- D17 (regression witness): with `module.load` as written, a module whose environment cannot be set up stays in the
+/-- D24 (regression witness): with `module.load` as written, a module whose environment cannot be set up stays in the
 registry unfinished, and the second goroutine that loads it sleeps for ever: `Load` hangs. -/
 theorem C06_unfetchable_counterexample :
     ∃ s, Reachable .asWritten twoOnUnfetchable s ∧ stuck .asWritten twoOnUnfetchable s = true ∧
@@ -175,7 +175,7 @@ theorem C06_cycle_reported {P : Project} (hnb : NoBroken P) {s : State} (h : Rea
   have := oc.no_err m
   cases hres : s.result m <;> simp_all
 
-/-- D17 side: a reachable module whose environment cannot be set up makes the load fail (instead of hanging): when all
+/-- D24 side: a reachable module whose environment cannot be set up makes the load fail (instead of hanging): when all
 goroutines have returned that module is finished, with its error, and was "executed" once. -/
 theorem C06_unfetchable_reported {P : Project} {s : State} (h : Reachable .fixed P s) (ht : Terminal P s)
     {b : Mod} (hb : Reach P b) (hbr : P.broken b = true) : ∃ m, s.loaded m = true ∧ s.result m ≠ .ok := by
